@@ -693,6 +693,180 @@ fn scenario_async_mt(seed: u64) {
 }
 
 // ------------------------------------------------------------------------------------------------
+// C03 under real parallelism: asks issued at the very moment the actor ends (kill, stop, panic in a
+// handler) must all complete - Ok or Err - and never wait forever. The window between "mailbox slot
+// reserved" and "message pushed" of a send only exists when the asker and the actor run on different threads.
+fn scenario_ask_vs_end(seed: u64) {
+    let mut rng = Rng(seed);
+    let rt = rt();
+    let cap = [2usize, 8][rng.below(2) as usize];
+    let (r, jh, journal, _g) = new_actor(&rt, cap, false);
+    let ending = rng.below(3); // 0 kill, 1 stop, 2 handler panic
+    let askers = 2 + rng.below(2);
+    let mut tasks = Vec::new();
+    for c in 0..askers {
+        let r = r.clone();
+        let spins = rng.below(4);
+        tasks.push(rt.spawn(async move {
+            for _ in 0..spins {
+                tokio::task::yield_now().await;
+            }
+            let id = 100 + c;
+            match r.ask(Job(id, false)).await {
+                Ok(rc) => {
+                    if rc.id != id {
+                        violation("C03", "reply-mismatch", format!("ask({id}) got the reply of {}", rc.id));
+                    }
+                    "ok"
+                }
+                Err(e) => err_kind(&e),
+            }
+        }));
+    }
+    // end the actor while the asks are being sent
+    for _ in 0..rng.below(3) {
+        std::thread::yield_now();
+    }
+    match ending {
+        0 => {
+            r.kill().unwrap();
+        }
+        1 => {
+            rt.block_on(r.stop()).unwrap();
+        }
+        _ => {
+            let _ = r.blocking_tell(Poison(1), None);
+        }
+    }
+    drop(r);
+    let mut outcomes = Vec::new();
+    for t in tasks {
+        // a task that never finishes leaves every thread blocked: Miri reports the deadlock
+        outcomes.push(rt.block_on(t).unwrap());
+    }
+    let _ = rt.block_on(jh);
+    ev(format!("ask-vs-end ending={ending} cap={cap} outcomes={outcomes:?} handled={}", journal.lock().unwrap().handled.len()));
+    for o in &outcomes {
+        if !matches!(*o, "ok" | "Send" | "Receive") {
+            violation("C03", "unexpected-error", format!("ask racing the actor's end returned {o}"));
+        }
+    }
+}
+
+// ------------------------------------------------------------------------------------------------
+// C06 under real parallelism: kill() immediately followed by dropping the last reference. Nobody calls
+// stop() and a reference is alive until after kill() has returned, so the actor cannot have begun
+// stopping before the kill: it must report killed=true. (The window - the actor task is in the middle of
+// polling its two channels when both the kill signal and the closing of the mailbox arrive - only
+// exists when the killer and the actor run on different threads.)
+fn scenario_kill_then_drop(seed: u64) {
+    let mut rng = Rng(seed);
+    let rt = rt();
+    let cap = [1usize, 4][rng.below(2) as usize];
+    let (r, jh, journal, _g) = new_actor(&rt, cap, false);
+    let n_msgs = rng.below(3);
+    for i in 0..n_msgs {
+        let _ = r.blocking_tell(Job(100 + i, false), None);
+    }
+    // other holders drop their clones concurrently
+    let mut holders = Vec::new();
+    for _ in 0..rng.below(3) {
+        let c = r.clone();
+        let spins = rng.below(4);
+        holders.push(std::thread::spawn(move || {
+            for _ in 0..spins {
+                std::thread::yield_now();
+            }
+            drop(c);
+        }));
+    }
+    for _ in 0..rng.below(4) {
+        std::thread::yield_now();
+    }
+    let res = r.kill();
+    drop(r);
+    for h in holders {
+        h.join().unwrap();
+    }
+    let out = rt.block_on(jh);
+    let j = journal.lock().unwrap();
+    ev(format!("kill-then-drop cap={cap} msgs={n_msgs} handled={} kill={:?}", j.handled.len(), res.is_ok()));
+    if res.is_err() {
+        violation("C06", "kill-failed", "kill() returned an error".into());
+    }
+    match out {
+        Ok(res) => {
+            if !res.was_killed() {
+                violation("C06", "kill-not-reported", "kill() returned before the actor had begun stopping, yet the actor reported killed=false".into());
+            }
+        }
+        Err(e) => violation("C07", "unexpected-panic", format!("actor task failed: {e}")),
+    }
+    if !j.stopped {
+        violation("C04", "on_stop-skipped", "on_stop did not run".into());
+    }
+}
+
+// ------------------------------------------------------------------------------------------------
+// the same race seen from threads: blocking_ask(None) callers racing the actor's end. "Same error rules
+// as ask" (C17) includes "never hangs on a dead actor": every call must return; Miri's deadlock verdict is
+// the hang oracle
+fn scenario_blocking_ask_vs_end(seed: u64) {
+    let mut rng = Rng(seed);
+    let rt = rt();
+    let cap = [2usize, 8][rng.below(2) as usize];
+    let (r, jh, journal, _g) = new_actor(&rt, cap, false);
+    let ending = rng.below(3); // 0 kill, 1 stop, 2 handler panic
+    let askers = 2 + rng.below(2);
+    let mut threads = Vec::new();
+    for c in 0..askers {
+        let r = r.clone();
+        let spins = rng.below(4);
+        threads.push(std::thread::spawn(move || {
+            for _ in 0..spins {
+                std::thread::yield_now();
+            }
+            let id = 100 + c;
+            match r.blocking_ask(Job(id, false), None) {
+                Ok(rc) => {
+                    if rc.id != id {
+                        violation("C17", "reply-mismatch", format!("blocking_ask({id}) got the reply of {}", rc.id));
+                    }
+                    "ok"
+                }
+                Err(e) => err_kind(&e),
+            }
+        }));
+    }
+    for _ in 0..rng.below(3) {
+        std::thread::yield_now();
+    }
+    match ending {
+        0 => {
+            r.kill().unwrap();
+        }
+        1 => {
+            rt.block_on(r.stop()).unwrap();
+        }
+        _ => {
+            let _ = r.blocking_tell(Poison(1), None);
+        }
+    }
+    drop(r);
+    let mut outcomes = Vec::new();
+    for t in threads {
+        outcomes.push(t.join().unwrap());
+    }
+    let _ = rt.block_on(jh);
+    ev(format!("blocking-ask-vs-end ending={ending} cap={cap} outcomes={outcomes:?} handled={}", journal.lock().unwrap().handled.len()));
+    for o in &outcomes {
+        if !matches!(*o, "ok" | "Send" | "Receive") {
+            violation("C17", "unexpected-error", format!("blocking_ask racing the actor's end returned {o}"));
+        }
+    }
+}
+
+// ------------------------------------------------------------------------------------------------
 // hang oracle self-test: a blocking_ask(None) on an actor gated shut forever must make Miri report
 // a deadlock (used only by the engine's self-test, never by a property check)
 fn scenario_selftest_hang(_seed: u64) {
@@ -719,6 +893,9 @@ fn main() {
         "in_runtime" => scenario_in_runtime(seed),
         "contended" => scenario_contended(seed),
         "async_mt" => scenario_async_mt(seed),
+        "ask_vs_end" => scenario_ask_vs_end(seed),
+        "kill_then_drop" => scenario_kill_then_drop(seed),
+        "blocking_ask_vs_end" => scenario_blocking_ask_vs_end(seed),
         "deadletters" => scenario_deadletters(seed),
         "selftest_hang" => scenario_selftest_hang(seed),
         other => {
